@@ -59,7 +59,8 @@ class Mod:
         except (OSError, SyntaxError) as e:
             raise AnalysisError("cannot parse %s: %s" % (self.rel, e))
         # helpers introduced after the pinned commit are inlined into their callers (see inline.py)
-        from inline import Inliner
+        from inline import Inliner, StructNorm
+        self.struct_normalised = StructNorm(self.tree).run()
         self.inlined = Inliner(name, self.tree, path=self.path).run()
         set_parents(self.tree)
         self.classes = {}
